@@ -346,6 +346,16 @@ def prove(ctx, modules, gen_modules=()):
             ctx.oblige(t_, False, 'lake build failed' + (' in ' + ','.join(failed_mods) if failed_mods else ''))
         if not thms:
             ctx.oblige('lake_build', False, log[-500:])
+    if ok and ctx.thorough:
+        # independent re-check of the compiled declarations by the toolchain's leanchecker (thorough tier only)
+        mods = list(modules) + list(gen_modules)
+        try:
+            rc, out, err = run(['lake', 'env', 'leanchecker'] + mods, cwd=LEAN, timeout=2400)
+            txt = (out + err).strip()
+            ctx.oblige('leanchecker', rc == 0 and 'exception' not in txt.lower() and 'error' not in txt.lower(),
+                       ('re-checked %d modules' % len(mods)) if rc == 0 else txt[-300:])
+        except Exception as e:
+            ctx.oblige('leanchecker', False, 'could not run: %s' % str(e)[:200])
     hits = forbidden_hits(lean_files())
     ctx.oblige('no_forbidden_tokens', not hits, '; '.join(hits[:5]))
     return ok
